@@ -44,7 +44,8 @@ ASSUMPTIONS = ['no integer overflow in sums (the model computes in unbounded int
                'NumPy reduces an N-d array along axes lane by lane (Arr.reduce); lanes are enumerated row-major',
                'any()/all(): empty lanes under a scalar False mask are excluded from the theorems (KF-C13-1)',
                'builtins=True: the property is silent; the oracle only demands that the conversion does not change what '
-               'is observable (judge_builtin); the exact rule is in the model (asBuiltin, builtinsApplies) and compared']
+               'is observable and that the documented masked= value is returned for a single masked result (judge_builtin); '
+               'the exact rule is in the model (asBuiltin, builtinsApplies) and compared']
 TRUSTED_EXTRA = ['numpy.ma as the reference for reductions over the unmasked elements (oracle only)']
 
 INF = 8 * 2 ** 1030            # wire code of +inf for float data (larger than 8 * any finite float64)
